@@ -1,6 +1,10 @@
 import InfluxQL.Gen.SitesAst
+import InfluxQL.Gen.RewriteSwitch
 import InfluxQL.Model.GroupBy
 import InfluxQL.Lemmas.OpsChecked
+import InfluxQL.Lemmas.RewriteChecked
+import InfluxQL.Lemmas.SourcesCodecChecked
+import InfluxQL.Model.ParserStmt
 import InfluxQL.Props.C19
 import InfluxQL.Props.C20
 /-!
@@ -19,6 +23,12 @@ Three ingredients:
   all inventoried sites of a modelled function must be in the list;
 * the property oracle of stream `ops.total`, which runs every public operation under `recover`
   on statements of odd shape (correspondence side).
+
+`Rewrite` (13 assertions on what a caller-supplied `Rewriter` answers) is `Model/RewriteChecked.lean`:
+no panic under the contract `KindPreserving`, a panic at each site without it; its type switch is
+compared with the regenerated `Gen.rewriteSwitch`. The protobuf codec of `Sources` (3 sites) is
+`Model/SourcesCodecChecked.lean` (`marshalBinary_no_panic`, `unmarshalBinary_no_panic`); before the
+repair `Sources.MarshalBinary` panicked on the sources of `SELECT a FROM (SELECT a FROM m)`.
 -/
 namespace InfluxQL.C13
 open InfluxQL Gen
@@ -36,19 +46,19 @@ def reviewedSites : List (String × String × String) := [
   ("Fields.Less", "index", "a[j]"),  -- sort.Interface: indices come from package sort
   ("Fields.Swap", "index", "a[i]"),  -- sort.Interface
   ("Fields.Swap", "index", "a[j]"),  -- sort.Interface
-  ("Rewrite", "assert", "Rewrite(r, d).(*Dimension)"),  -- each case of Rewrite returns a node of the static type it was given; a Rewriter that changes node kinds is a caller error
-  ("Rewrite", "assert", "Rewrite(r, expr).(Expr)"),  -- each case of Rewrite returns a node of the static type it was given; a Rewriter that changes node kinds is a caller error
-  ("Rewrite", "assert", "Rewrite(r, f).(*Field)"),  -- each case of Rewrite returns a node of the static type it was given; a Rewriter that changes node kinds is a caller error
-  ("Rewrite", "assert", "Rewrite(r, n.Dimensions).(Dimensions)"),  -- each case of Rewrite returns a node of the static type it was given; a Rewriter that changes node kinds is a caller error
-  ("Rewrite", "assert", "Rewrite(r, n.Expr).(Expr)"),  -- each case of Rewrite returns a node of the static type it was given; a Rewriter that changes node kinds is a caller error
-  ("Rewrite", "assert", "Rewrite(r, n.Fields).(Fields)"),  -- each case of Rewrite returns a node of the static type it was given; a Rewriter that changes node kinds is a caller error
-  ("Rewrite", "assert", "Rewrite(r, n.LHS).(Expr)"),  -- each case of Rewrite returns a node of the static type it was given; a Rewriter that changes node kinds is a caller error
-  ("Rewrite", "assert", "Rewrite(r, n.RHS).(Expr)"),  -- each case of Rewrite returns a node of the static type it was given; a Rewriter that changes node kinds is a caller error
-  ("Rewrite", "assert", "Rewrite(r, n.Sources).(Sources)"),  -- each case of Rewrite returns a node of the static type it was given; a Rewriter that changes node kinds is a caller error
-  ("Rewrite", "assert", "Rewrite(r, n.Statement).(*SelectStatement)"),  -- each case of Rewrite returns a node of the static type it was given; a Rewriter that changes node kinds is a caller error
-  ("Rewrite", "assert", "Rewrite(r, n.Statements).(Statements)"),  -- each case of Rewrite returns a node of the static type it was given; a Rewriter that changes node kinds is a caller error
-  ("Rewrite", "assert", "Rewrite(r, s).(Statement)"),  -- each case of Rewrite returns a node of the static type it was given; a Rewriter that changes node kinds is a caller error
-  ("Rewrite", "assert", "cond.(Expr)"),  -- each case of Rewrite returns a node of the static type it was given; a Rewriter that changes node kinds is a caller error
+  ("Rewrite", "assert", "Rewrite(r, d).(*Dimension)"),  -- safe iff the Rewriter answers each node with a node of the same interface kind (rewrite_no_panic / rewrite_needs_contract)
+  ("Rewrite", "assert", "Rewrite(r, expr).(Expr)"),  -- safe iff the Rewriter answers each node with a node of the same interface kind (rewrite_no_panic / rewrite_needs_contract)
+  ("Rewrite", "assert", "Rewrite(r, f).(*Field)"),  -- safe iff the Rewriter answers each node with a node of the same interface kind (rewrite_no_panic / rewrite_needs_contract)
+  ("Rewrite", "assert", "Rewrite(r, n.Dimensions).(Dimensions)"),  -- safe iff the Rewriter answers each node with a node of the same interface kind (rewrite_no_panic / rewrite_needs_contract)
+  ("Rewrite", "assert", "Rewrite(r, n.Expr).(Expr)"),  -- safe iff the Rewriter answers each node with a node of the same interface kind (rewrite_no_panic / rewrite_needs_contract)
+  ("Rewrite", "assert", "Rewrite(r, n.Fields).(Fields)"),  -- safe iff the Rewriter answers each node with a node of the same interface kind (rewrite_no_panic / rewrite_needs_contract)
+  ("Rewrite", "assert", "Rewrite(r, n.LHS).(Expr)"),  -- safe iff the Rewriter answers each node with a node of the same interface kind (rewrite_no_panic / rewrite_needs_contract)
+  ("Rewrite", "assert", "Rewrite(r, n.RHS).(Expr)"),  -- safe iff the Rewriter answers each node with a node of the same interface kind (rewrite_no_panic / rewrite_needs_contract)
+  ("Rewrite", "assert", "Rewrite(r, n.Sources).(Sources)"),  -- safe iff the Rewriter answers each node with a node of the same interface kind (rewrite_no_panic / rewrite_needs_contract)
+  ("Rewrite", "assert", "Rewrite(r, n.Statement).(*SelectStatement)"),  -- safe iff the Rewriter answers each node with a node of the same interface kind (rewrite_no_panic / rewrite_needs_contract)
+  ("Rewrite", "assert", "Rewrite(r, n.Statements).(Statements)"),  -- safe iff the Rewriter answers each node with a node of the same interface kind (rewrite_no_panic / rewrite_needs_contract)
+  ("Rewrite", "assert", "Rewrite(r, s).(Statement)"),  -- safe iff the Rewriter answers each node with a node of the same interface kind (rewrite_no_panic / rewrite_needs_contract)
+  ("Rewrite", "assert", "cond.(Expr)"),  -- safe iff the Rewriter answers each node with a node of the same interface kind (rewrite_no_panic / rewrite_needs_contract)
   ("SelectStatement.ColumnNames", "index", "columnNames[0]"),  -- columnNames has len(columnFields)+offset entries; Args[1:] guarded by len(f.Args) > 1 (7d5f959)
   ("SelectStatement.ColumnNames", "index", "columnNames[i+offset]"),  -- columnNames has len(columnFields)+offset entries; Args[1:] guarded by len(f.Args) > 1 (7d5f959)
   ("SelectStatement.ColumnNames", "slice", "f.Args[1:]"),  -- columnNames has len(columnFields)+offset entries; Args[1:] guarded by len(f.Args) > 1 (7d5f959)
@@ -64,8 +74,7 @@ def reviewedSites : List (String × String × String) := [
   ("SelectStatement.RewriteTimeFields", "slice", "s.Fields[:i]"),  -- i ranges over s.Fields
   ("SelectStatement.RewriteTimeFields", "slice", "s.Fields[i+1:]"),  -- i ranges over s.Fields
   ("SelectStatement.TimeAscending", "index", "s.SortFields[0]"),  -- guarded by len(s.SortFields) == 0 ||
-  ("Sources.MarshalBinary", "assert", "source.(*Measurement)"),  -- binary encoding, outside the operation set of C13; subquery sources are rejected by the type switch before
-  ("Sources.MarshalBinary", "index", "pb.Items[i]"),  -- binary encoding, outside the operation set of C13; subquery sources are rejected by the type switch before
+  ("Sources.MarshalBinary", "index", "pb.Items[i]"),  -- pb.Items made with len(a); the assertion on the source is comma-ok since the fix: commit (a subquery source is an error)
   ("Sources.UnmarshalBinary", "index", "(*a)[i]"),  -- index within make(len)
   ("TypeValuerEval.evalCallExprType", "index", "args[i]"),  -- args made with len(expr.Args)
   ("ValuerEval.Eval", "index", "args[i]"),  -- args made with len(expr.Args)
@@ -190,7 +199,8 @@ theorem normalize_no_panic (dims : List Expr) : (normalize dims).isPanic = false
 
 open Checked in
 /-- The inventoried sites that are checked primitives of a model, in inventory order. The entries
-written `s…` are the very values the primitives of `Model/OpsChecked.lean` carry; the four
+written `s…` are the very values the primitives of `Model/OpsChecked.lean`, `Model/RewriteChecked.lean`
+(`sRw…`) and `Model/SourcesCodecChecked.lean` (`sMarshal…`, `sUnmarshalSlot`) carry; the four
 `GROUP BY` sites are the `indexOrPanic` / `remOrPanic` calls of `Model/GroupBy.lean`, and `ep[0]` is
 the `emptyBase` failure of `Model/Priv.lean` (`requiredPrivileges_total`). -/
 def modelledSites : List Site := [
@@ -199,6 +209,8 @@ def modelledSites : List Site := [
   ("Dimensions.Normalize", "index", "expr.Args[0]"),
   sConj0, sConjTail,
   sFieldsLessI, sFieldsLessJ, sFieldsSwapI, sFieldsSwapJ,
+  sRwDimension, sRwArg, sRwField, sRwDimensions, sRwNExpr, sRwFields, sRwLHS, sRwRHS, sRwSources,
+  sRwSelect, sRwStatements, sRwStatement, sRwCond,
   sColTime, sColSlot, sColArgs,
   sFieldExprArgs,
   ("SelectStatement.GroupByInterval", "index", "call.Args[0]"),
@@ -208,6 +220,7 @@ def modelledSites : List Site := [
   sRegexVals0, sRegexValsI,
   sTimeFieldsIdx, sTimeFieldsPre, sTimeFieldsPost,
   sTimeAscending,
+  sMarshalItems, sUnmarshalSlot,
   sEvalTypeArgs,
   sEvalArgs,
   sEvalMod, sEvalUIMod, sEvalDiv, sEvalUIDiv, sEvalIUMod, sEvalIUDiv,
@@ -219,13 +232,14 @@ def modelledSites : List Site := [
   sReduceCallVals, sReduceCallArgs
 ]
 
-/-- The functions of ast.go / utils.go that have a checked model. -/
+/-- The functions of ast.go / utils.go that have a checked model (`Rewrite`: `Model/RewriteChecked.lean`). -/
 def modelledFunctions : List String := [
   "CloneExpr", "CreateContinuousQueryStatement.RequiredPrivileges", "Dimensions.Normalize",
-  "ExprsToConjunction", "Fields.Less", "Fields.Swap", "SelectStatement.ColumnNames",
+  "ExprsToConjunction", "Fields.Less", "Fields.Swap", "Rewrite", "SelectStatement.ColumnNames",
   "SelectStatement.FieldExprByName", "SelectStatement.GroupByInterval", "SelectStatement.GroupByOffset",
   "SelectStatement.RewriteFields", "SelectStatement.RewriteRegexConditions", "SelectStatement.RewriteTimeFields",
-  "SelectStatement.TimeAscending", "TypeValuerEval.evalCallExprType", "ValuerEval.Eval",
+  "SelectStatement.TimeAscending", "Sources.MarshalBinary", "Sources.UnmarshalBinary",
+  "TypeValuerEval.evalCallExprType", "ValuerEval.Eval",
   "ValuerEval.evalBinaryExpr", "VarRefs.Less", "VarRefs.Strings", "VarRefs.Swap", "cloneSource",
   "matchExactRegex", "matchRegex",
   "reduceBinaryExprDurationLHS", "reduceBinaryExprIntegerLHS", "reduceBinaryExprUnsignedLHS", "reduceCall"
@@ -238,15 +252,78 @@ breaks this obligation until the model has a primitive for it. -/
 theorem gen_modelled_sites :
     sitesAst.filter (fun s => modelledFunctions.contains s.1) = modelledSites := by decide
 
-/-- 55 of the 71 inventoried sites are covered by a checked primitive and a theorem. -/
-theorem gen_modelled_sites_count : modelledSites.length = 55 ∧ sitesAst.length = 71 := by decide
+/-- All 70 inventoried sites are checked primitives of a model with a theorem that says when they
+fire: never, or never under a stated contract (`sort.Interface` indices, `Regex.wf`, `int64`
+integers, a kind-preserving `Rewriter`). (The 71st site of the earlier inventory,
+`source.(*Measurement)` in `Sources.MarshalBinary`, did fire on a subquery source; the repair made
+it a comma-ok assertion, which is not a panic site.) -/
+theorem gen_modelled_sites_count : modelledSites.length = 70 ∧ sitesAst.length = 70 := by decide
 
-/-- The remaining 16 sites (reviewed list only): `Rewrite` with a caller-supplied `Rewriter`
-(13 assertions) and the protobuf codec of `Sources` (3). -/
+/-- The 13 sites of `Rewrite` in the inventory are the sites the assertions of
+`Model/RewriteChecked.lean` carry. -/
+theorem gen_rewrite_sites :
+    sitesAst.filter (fun s => s.1 == "Rewrite") = Checked.rewriteSites := by decide
+
+/-- The 2 sites of the `Sources` codec are the sites of `Model/SourcesCodecChecked.lean`. -/
+theorem gen_codec_sites :
+    sitesAst.filter (fun s => s.1 == "Sources.MarshalBinary" || s.1 == "Sources.UnmarshalBinary")
+      = Checked.codecSites := by decide
+
+/-- No function with an inventoried site is without a checked model. -/
 theorem gen_unmodelled_functions :
-    ((sitesAst.filter (fun s => !modelledFunctions.contains s.1)).map (·.1)).eraseDups
-      = ["Rewrite", "Sources.MarshalBinary", "Sources.UnmarshalBinary"] := by
+    ((sitesAst.filter (fun s => !modelledFunctions.contains s.1)).map (·.1)).eraseDups = [] := by
   decide
+
+/-- The type switch of `Rewrite` as transcribed in `Model/RewriteChecked.lean`: per case clause the
+type and the statements of its body, with the definition that models it. Cases that are *not* here
+(`Sources`, `*Measurement`, every statement type but `*SelectStatement`, `SortFields`, `*Target`, …)
+are the catch-all rows of `rewriteChecked` / `rewriteStatement` / `rewriteExpr`. -/
+def reviewedRewriteSwitch : List (List String × List String) := [
+  (["*Query"], ["n.Statements = Rewrite(r, n.Statements).(Statements)"]),  -- rewriteChecked (.query …)
+  (["Statements"], ["for i, s := range n { n[i] = Rewrite(r, s).(Statement) }"]),  -- rewriteStatements
+  (["*SelectStatement"], ["n.Fields = Rewrite(r, n.Fields).(Fields)",  -- rewriteSelect
+    "n.Dimensions = Rewrite(r, n.Dimensions).(Dimensions)",
+    "n.Sources = Rewrite(r, n.Sources).(Sources)",
+    "if cond := Rewrite(r, n.Condition); cond != nil { n.Condition = cond.(Expr) } else { n.Condition = nil }"]),  -- rewriteCondition
+  (["*SubQuery"], ["n.Statement = Rewrite(r, n.Statement).(*SelectStatement)"]),  -- rewriteChecked (.source (.subquery …))
+  (["Fields"], ["for i, f := range n { n[i] = Rewrite(r, f).(*Field) }"]),  -- rewriteFields
+  (["*Field"], ["n.Expr = Rewrite(r, n.Expr).(Expr)"]),  -- rewriteField
+  (["Dimensions"], ["for i, d := range n { n[i] = Rewrite(r, d).(*Dimension) }"]),  -- rewriteDimensions
+  (["*Dimension"], ["n.Expr = Rewrite(r, n.Expr).(Expr)"]),  -- rewriteDimension
+  (["*BinaryExpr"], ["n.LHS = Rewrite(r, n.LHS).(Expr)", "n.RHS = Rewrite(r, n.RHS).(Expr)"]),  -- rewriteExpr (.binary …)
+  (["*ParenExpr"], ["n.Expr = Rewrite(r, n.Expr).(Expr)"]),  -- rewriteExpr (.paren …)
+  (["*Call"], ["for i, expr := range n.Args { n.Args[i] = Rewrite(r, expr).(Expr) }"])  -- rewriteExpr (.call …), rewriteArgs
+]
+
+/-- The type switch of `Rewrite` in /repo (regenerated: case types and the statements of each case,
+comments dropped) is the one the model transcribes, and around it there is only the final call of the
+rewriter. A new case, a changed assertion, a moved or removed nil guard breaks this obligation. -/
+theorem gen_rewrite_switch :
+    Gen.rewriteSwitch = reviewedRewriteSwitch ∧
+    Gen.rewriteRest = ["switch n := node.(type) { … }", "return r.Rewrite(node)"] :=
+  ⟨rfl, rfl⟩
+
+/-- The bodies of the codec functions as transcribed in `Model/SourcesCodecChecked.lean`. -/
+def reviewedCodecBodies : List (String × List String) := [
+  ("Sources.MarshalBinary", ["var pb internal.Measurements",
+    "pb.Items = make([]*internal.Measurement, len(a))",
+    "for i, source := range a { mm, ok := source.(*Measurement) if !ok { return nil, fmt.Errorf(\"cannot encode source of type %T: only measurements can be encoded\", source) } pb.Items[i] = encodeMeasurement(mm) }",  -- marshalItems, marshalOne, errNotMeasurement
+    "return proto.Marshal(&pb)"]),
+  ("Sources.UnmarshalBinary", ["var pb internal.Measurements",
+    "if err := proto.Unmarshal(buf, &pb); err != nil { return err }",
+    "*a = make(Sources, len(pb.GetItems()))",
+    "for i := range pb.GetItems() { mm, err := decodeMeasurement(pb.GetItems()[i]) if err != nil { return err } (*a)[i] = mm }",  -- unmarshalItems, unmarshalOne
+    "return nil"]),
+  ("encodeMeasurement", ["pb := &internal.Measurement{ Database: proto.String(mm.Database), RetentionPolicy: proto.String(mm.RetentionPolicy), Name: proto.String(mm.Name), IsTarget: proto.Bool(mm.IsTarget), }",
+    "if mm.Regex != nil { pb.Regex = proto.String(mm.Regex.Val.String()) }",
+    "return pb"]),
+  ("decodeMeasurement", ["mm := &Measurement{ Database: pb.GetDatabase(), RetentionPolicy: pb.GetRetentionPolicy(), Name: pb.GetName(), IsTarget: pb.GetIsTarget(), }",
+    "if pb.Regex != nil { regex, err := regexp.Compile(pb.GetRegex()) if err != nil { return nil, fmt.Errorf(\"invalid binary measurement regex: value=%q, err=%s\", pb.GetRegex(), err) } mm.Regex = &RegexLiteral{Val: regex} }",
+    "return mm, nil"])
+]
+
+/-- The codec functions in /repo are the ones the model transcribes. -/
+theorem gen_codec_bodies : Gen.codecBodies = reviewedCodecBodies := by rfl
 
 /-! ## `ColumnNames`, `FieldExprByName`, `TimeAscending`, `ExprsToConjunction`, `RewriteTimeFields` -/
 
@@ -397,6 +474,178 @@ theorem rewriteFieldsCallHead_terminates (name : Str) (args : List Expr) :
   · rw [if_neg hc, Checked.idx_of_eq Checked.sRFArgs0 cargs (i := 0) (n := 0) (x := cargs[0]) rfl
       (List.getElem?_eq_getElem (by omega))]
     exact ⟨_, rfl⟩
+
+/-! ## `Rewrite` with a caller-supplied `Rewriter` (`Model/RewriteChecked.lean`)
+
+The 13 unchecked assertions of `Rewrite` store what the rewriter answered for a child into the
+field of the parent the child came from. They are safe exactly as far as the rewriter answers
+each node with a node of the interface kind of that field. -/
+
+open Checked in
+/-- **C13 (Rewrite).** If the rewriter answers every node with a node of the same interface kind
+(`KindPreserving`: an expression with any expression, `Fields` with `Fields`, a `*Field` with a
+`*Field`, `Dimensions` / `*Dimension` / `Sources` / `Statements` likewise, a SELECT with a SELECT,
+another statement with a statement, nil with nil), then `Rewrite` returns for every node — a
+query, a statement list, any statement, a subquery source, field and dimension lists and their
+elements, any expression, the nil node — and the result has the kind of the argument. SELECT
+statements without a condition included: the nil condition is handed to the rewriter as the nil
+node and its answer is only asserted when it is not nil. -/
+theorem rewrite_no_panic (rw : Node → Node) (h : KindPreserving rw) (node : Node) :
+    ∃ m, rewriteChecked rw node = .ok m ∧ m.kind = node.kind := rewriteChecked_kind h node
+
+open Checked in
+/-- The same under the weaker contract `Accepts rw`, which lists slot by slot what the assertions
+demand: `Statements`, `Statement`, `*SelectStatement` (for a SELECT), `Fields`, `*Field`,
+`Dimensions`, `*Dimension`, `Sources`, `Expr` for an expression, and nil or an expression for the
+nil node (the answer to a missing condition may be a new condition). Nothing is asked about
+`*Query`, `*SubQuery`, `*Measurement`, sort fields, targets. -/
+theorem rewrite_no_panic_of_accepts (rw : Node → Node) (h : Accepts rw) (node : Node) :
+    ∃ m, rewriteChecked rw node = .ok m := rewriteChecked_ok h node
+
+open Checked in
+/-- `KindPreserving` implies `Accepts`. -/
+theorem kindPreserving_accepts (rw : Node → Node) (h : KindPreserving rw) : Accepts rw := h.accepts
+
+open Checked in
+/-- **C13 (RewriteFunc with the identity).** `RewriteFunc(n, func(n Node) Node { return n })`
+returns `n`, for every node. -/
+theorem rewrite_identity (node : Node) : rewriteChecked idRewriter node = .ok node :=
+  rewriteChecked_id node
+
+open Checked in
+/-- **C13 (Rewrite with an expression rewriter).** A rewriter that replaces expressions by
+expressions (`fn : Expr → Expr`, total: it never answers nil) and leaves every other node alone
+is kind-preserving, so `Rewrite` with it returns for every node and every `fn`. -/
+theorem rewrite_exprRewriter_no_panic (fn : Expr → Expr) (node : Node) :
+    ∃ m, rewriteChecked (exprRewriter fn) node = .ok m ∧ m.kind = node.kind :=
+  rewriteChecked_kind (exprRewriter_kindPreserving fn) node
+
+open Checked in
+/-- **C13 (Rewrite, SELECT without a condition).** Spelled out for the case the guard
+`if cond := Rewrite(r, n.Condition); cond != nil` exists for: for every kind-preserving rewriter
+and every SELECT, with or without condition, the statement case returns a SELECT. -/
+theorem rewrite_select_no_panic (rw : Node → Node) (h : KindPreserving rw) (s : SelectStmt) :
+    ∃ s', rewriteChecked rw (.statement (.select s)) = .ok (.statement (.select s')) :=
+  rewriteSelect_ok h.accepts s
+
+open Checked in
+/-- What the guard is for: the unguarded form of the store, `x = Rewrite(r, x).(Expr)`, on a nil
+slot panics already with the identity rewriter (`nil.(Expr)` panics); the guarded form returns nil. -/
+theorem rewrite_nil_condition_guard :
+    (rewriteSlot idRewriter sRwCond none).isPanic = true ∧ rewriteCondition idRewriter none = .ok none := by
+  exact ⟨rfl, rfl⟩
+
+private def emptySelect : SelectStmt := default
+private def selectWhere (c : Expr) : SelectStmt :=
+  .mk [] none [] [] (some c) [] 0 0 0 0 false .null .none none [] false false [] false
+private def refX : Expr := .varRef ['x'] .Unknown
+
+open Checked in
+/-- **The contract is needed, at every one of the 13 sites**: for each assertion of `Rewrite` there
+is a rewriter that is not kind-preserving and a node on which exactly that assertion panics. -/
+theorem rewrite_needs_contract :
+    ∀ s ∈ rewriteSites, ∃ (rw : Node → Node) (node : Node),
+      ¬ KindPreserving rw ∧ rewriteChecked rw node = .panic s.str := by
+  have hb : ∀ k, k ≠ Kind.target → ∀ n : Node, n.kind = k → ¬ KindPreserving (breakAt k) := by
+    intro k hk n hn hkp
+    have := hkp n
+    rw [breakAt, if_pos hn, hn] at this
+    exact hk this.symm
+  have hd : ¬ KindPreserving dropVarRefs := fun hkp => by
+    have := hkp (.expr refX)
+    cases this
+  intro s hs
+  simp only [rewriteSites, List.mem_cons, List.not_mem_nil, or_false] at hs
+  rcases hs with rfl | rfl | rfl | rfl | rfl | rfl | rfl | rfl | rfl | rfl | rfl | rfl | rfl
+  · exact ⟨breakAt .dimension, .dimensions [.integer 1], hb _ (by decide) (.dimension .nil) rfl, rfl⟩
+  · exact ⟨dropVarRefs, .expr (.call ['f'] [.integer 1, refX]), hd, rfl⟩
+  · exact ⟨breakAt .field, .fields [{ expr := .integer 1 }], hb _ (by decide) (.field default) rfl, rfl⟩
+  · exact ⟨breakAt .dimensions, .statement (.select emptySelect), hb _ (by decide) (.dimensions []) rfl, rfl⟩
+  · exact ⟨dropVarRefs, .field { expr := refX }, hd, rfl⟩
+  · exact ⟨breakAt .fields, .statement (.select emptySelect), hb _ (by decide) (.fields []) rfl, rfl⟩
+  · exact ⟨dropVarRefs, .expr (.binary .ADD refX (.integer 1)), hd, rfl⟩
+  · exact ⟨dropVarRefs, .expr (.binary .ADD (.integer 1) refX), hd, rfl⟩
+  · exact ⟨breakAt .sources, .statement (.select emptySelect), hb _ (by decide) (.sources []) rfl, rfl⟩
+  · exact ⟨breakAt .select, .source (.subquery emptySelect), hb _ (by decide)
+      (.statement (.select emptySelect)) rfl, rfl⟩
+  · exact ⟨breakAt .statements, .query [], hb _ (by decide) (.statements []) rfl, rfl⟩
+  · exact ⟨breakAt .statement, .statements [.showDatabases], hb _ (by decide) (.statement .showDatabases) rfl, rfl⟩
+  · exact ⟨breakAt .expr, .statement (.select (selectWhere (.boolean true))), hb _ (by decide) (.expr .nil) rfl, rfl⟩
+
+open Checked in
+/-- The nil node is part of the contract as well: a rewriter that answers the nil condition with
+something that is neither nil nor an expression panics on a SELECT without condition. -/
+theorem rewrite_needs_contract_nil :
+    rewriteChecked (breakAt .nil) (.statement (.select emptySelect)) = .panic sRwCond.str := rfl
+
+open Checked in
+/-- The demand is on what `Rewrite` returns for the child: whenever that is not an expression (for
+any rewriter whatever), the assertion in the parent panics. Stated for the child of a `*ParenExpr`. -/
+theorem rewrite_contract_necessary (rw : Node → Node) (e : Expr) (m : Node)
+    (h : rewriteChecked rw (.expr e) = .ok m) (hm : m.asExpr = none) :
+    rewriteChecked rw (.expr (.paren e)) = .panic sRwNExpr.str := by
+  simp only [rewriteChecked] at h ⊢
+  simp only [rewriteExpr, h, hm, Checked.ok_bind, assertT, Checked.panic_bind]
+
+/-! ## The protobuf codec of `Sources` (`Model/SourcesCodecChecked.lean`)
+
+Between the `Sources` value and the record list handed to / received from the protobuf library. -/
+
+open Checked in
+/-- **C13 (Sources.MarshalBinary).** For every `Sources` value the function returns: if all
+elements are measurements, the record list of the encoded measurements (the stores `pb.Items[i]`
+are in range); if an element is a subquery, the error `cannot encode source of type
+*influxql.SubQuery: only measurements can be encoded`. Never a panic.
+
+History: before the repair (`fix:` commit in /repo) the loop asserted `source.(*Measurement)` without
+comma-ok and `MarshalBinary` panicked on the sources of `SELECT a FROM (SELECT a FROM m)`
+(`interface conversion: influxql.Source is *influxql.SubQuery, not *influxql.Measurement`); this
+model then had the theorems `marshalBinary_panics_iff` / `marshalBinary_panics_on_parsed_statement`. -/
+theorem marshalBinary_no_panic (a : List Source) :
+    ((∀ s ∈ a, (sourceAsMeasurement s).isSome) ∧ marshalItems a = .ok (a.map marshalSlot)) ∨
+    ((∃ s ∈ a, ∃ sub, s = .subquery sub) ∧ marshalItems a = .err errNotMeasurement) := by
+  by_cases h : ∀ s ∈ a, (sourceAsMeasurement s).isSome
+  · exact .inl ⟨h, marshalItems_of_measurements a h⟩
+  · simp only [Classical.not_forall] at h
+    obtain ⟨s, hs, hn⟩ := h
+    cases s with
+    | measurement m => exact absurd rfl hn
+    | subquery sub => exact .inr ⟨⟨_, hs, sub, rfl⟩, marshalItems_of_subquery a ⟨_, hs, rfl⟩⟩
+
+/-- `SELECT a FROM (SELECT a FROM m)`. -/
+def marshalWitnessText : Str :=
+  ['S','E','L','E','C','T',' ','a',' ','F','R','O','M',' ','(','S','E','L','E','C','T',' ','a',' ','F','R','O','M',' ','m',')']
+
+/-- "The text parses to a SELECT whose `Sources.MarshalBinary()` returns the error", as a computation. -/
+def parsesAndMarshalErrs (r : Except Fail Statement) : Bool :=
+  match r with
+  | .ok (.select s) =>
+    match Checked.marshalItems s.sources with
+    | .err m => m == Checked.errNotMeasurement
+    | _ => false
+  | _ => false
+
+/-- The statement on which the pre-repair code panicked (kernel-evaluated with the model's parser):
+`SELECT a FROM (SELECT a FROM m)` is accepted, and `MarshalBinary` on its `Sources` is now the error. -/
+theorem marshalBinary_error_on_former_witness :
+    parsesAndMarshalErrs (parseStatementText marshalWitnessText [] []) = true := by decide +kernel
+
+open Checked in
+/-- **C13 (Sources.UnmarshalBinary).** On every record list the protobuf library can hand back,
+and whatever `regexp.Compile` says about the regex texts in it, the stores `(*a)[i]` are in range:
+the result is the list of decoded measurements, or the error for a regex that does not compile —
+never a panic. -/
+theorem unmarshalBinary_no_panic (compiles : Str → Bool) (items : List PbMeasurement) :
+    unmarshalItems compiles items = .ok (items.map fun pb => some (.measurement (decodedMeasurement pb))) ∨
+    unmarshalItems compiles items = .err errBadRegex := unmarshalItems_cases compiles items
+
+open Checked in
+/-- Decoding an encoded measurement returns it, up to `SystemIterator` (not encoded), if its regex
+compiles. -/
+theorem decode_encode_measurement (compiles : Str → Bool) (m : Measurement)
+    (h : ∀ r, m.regex = some r → compiles r = true) :
+    decodeMeasurement compiles (encodeMeasurement m) = .ok { m with systemIterator := [] } :=
+  decode_encode compiles m h
 
 /-! ## `Reduce`, `Eval` -/
 
